@@ -12,3 +12,15 @@ package scram
 //@   option noframe
 //@   modifies region($stepFailed)
 //@   ensures s.convo.$stepFailed ==> result2 != nil
+
+// The user name and password go through SASLprep (RFC 4013) before they enter the SCRAM exchange: the client is built with
+// NewClient - the constructor of the SCRAM library that normalises both - on every path of Mechanism (C18: the exchange
+// completes exactly when the credentials are right, for every user name and password, including characters needing
+// SASLprep). The clause names the constructor; that NewClient does normalise is the library's documented behaviour.
+//@ func Mechanism
+//@   option noframe
+//@   modifies heap
+//@   assume scram.HashGeneratorFcn.NewClient applies SASLprep to user name and password (xdg-go/scram documentation); NewClientUnprepped does not
+//@   requires !isnil(algo)
+//@   callsite scram.(HashGeneratorFcn).NewClient requires same($1, username) && same($2, password)
+//@   ensures result1 == nil ==> result0 != nil
